@@ -56,6 +56,12 @@ def rand_field(nprng, n, kind):
         a, b = numpy.mgrid[0:n, 0:n]
         ca, cb = nprng.uniform(0.2, 0.8, 2) * n
         return numpy.exp(-((a - ca) ** 2 + 2 * (b - cb) ** 2) / (0.08 * n * n + 1)) * numpy.exp(1j * 0.3 * a)
+    if kind == "plane":                                   # a tilted / untilted plane wave of constant modulus: energy in ONE spatial frequency
+        a, b = numpy.mgrid[0:n, 0:n]
+        p, q = nprng.integers(0, n, 2) * nprng.integers(0, 2)
+        return (1.5 - 0.5j) * numpy.exp(2j * numpy.pi * (p * a + q * b) / n)
+    if kind in ("huge", "tiny"):                          # amplitudes far from 1 (the library never squares the field: no overflow in domain)
+        return (nprng.normal(size=(n, n)) + 1j * nprng.normal(size=(n, n))) * (1e100 if kind == "huge" else 1e-100)
     return nprng.normal(size=(n, n)) + 1j * nprng.normal(size=(n, n))
 
 
@@ -77,7 +83,8 @@ SCALAR_KINDS = ["float", "f64", "f32", "0d", "int"]
 
 
 def as_kind(v, kind):
-    """the number v presented as Python float / numpy.float64 / numpy.float32 / 0-d float64 array / Python int (when integral):
+    """the number v presented as Python float / numpy.float64 / numpy.float32 / 0-d float64 array / Python int / numpy.int64 / numpy.int32 /
+    numpy.uint8 (the integer kinds only when v is integral; the last three are never drawn at random, only asked for explicitly):
     returns (object handed to the library, kind actually used, the binary64 value that object denotes)"""
     v = float(v)
     if kind == "f64":
@@ -88,6 +95,10 @@ def as_kind(v, kind):
         o = numpy.array(v, dtype=float)
     elif kind == "int" and v.is_integer() and abs(v) < 2 ** 31:
         o = int(v)
+    elif kind in ("i64", "i32") and v.is_integer() and abs(v) < 2 ** 31:
+        o = numpy.int64(int(v)) if kind == "i64" else numpy.int32(int(v))
+    elif kind == "u8" and v.is_integer() and 0 < v < 256:          # unsigned: only ever used for the positive parameters wvl, d1, d2
+        o = numpy.uint8(int(v))
     else:
         o, kind = v, "float"
     return o, kind, float(o)
@@ -119,7 +130,20 @@ class Scalars(object):
         return "/".join(self.kinds)
 
 
-FIELD_CLASSES = ["c128", "c128", "real", "c64", "fortran", "strided", "negstride"]
+FIELD_CLASSES = ["c128", "c128", "real", "c64", "fortran", "strided", "negstride",
+                 # round 5: storage dtypes of masks / detector frames, and the remaining memory layouts
+                 "f32real", "int64", "int32", "uint8", "bool", "readonly", "broadcast", "bigendian",
+                 "c64", "c128"]      # 17 entries: coprime to the other rotations (5 magnifications, 6 / 11 sizes, 5 scalar kinds, even / odd case index)
+SINGLE_CLASSES = ("c64", "f32real")     # single-precision storage
+# Which propagator actually computes in single precision for such a field (unchanged tree, NumPy >= 2): only lensAgainst, which hands the
+# field to numpy.fft as it is; angularSpectrum / oneStepFresnel / twoStepFresnel first multiply by a complex128 chirp, i.e. promote to double,
+# and are held to the double-precision tolerances (observed: power 4e-16, correspondence 2e-13, direct sums 1e-12 for complex64 fields).
+SINGLE_PRECISION_PROPAGATORS = ("lensAgainst", "lens")
+
+
+def single(name, c64):
+    """the tolerance class of propagator `name` for a field whose present_field flag is c64"""
+    return bool(c64) and name in SINGLE_PRECISION_PROPAGATORS
 
 
 def present_field(U, cls):
@@ -140,6 +164,27 @@ def present_field(U, cls):
         return big[::2, 1::2], U.copy(), False
     if cls == "negstride":                                # a reversed view of a reversed copy
         return U[::-1, ::-1].copy()[::-1, ::-1], U.copy(), False
+    if cls == "f32real":
+        V = numpy.ascontiguousarray(U.real).astype(numpy.float32)
+        return V, V.astype(complex), True
+    if cls in ("int64", "int32", "uint8", "bool"):        # integer-valued fields: masks, photon counts (values change, like "real")
+        r = U.real / (float(numpy.abs(U.real).max()) or 1.0) * 6.0
+        V = numpy.rint(r) if cls != "bool" else (r > 0.5)
+        if cls == "uint8":
+            V = numpy.abs(V)
+        if not V.any():
+            V[0, 0] = 1
+        V = numpy.ascontiguousarray(V).astype({"int64": numpy.int64, "int32": numpy.int32, "uint8": numpy.uint8, "bool": bool}[cls])
+        return V, V.astype(complex), False
+    if cls == "readonly":                                 # e.g. a memory-mapped or shared frame: any write into it raises
+        V = U.copy()
+        V.setflags(write=False)
+        return V, U.copy(), False
+    if cls == "broadcast":                                # zero-stride, read-only view of one row (numpy.broadcast_to): the field is constant along axis 0
+        W = numpy.ascontiguousarray(numpy.broadcast_to(U[int(numpy.abs(U).sum(axis=1).argmax())], U.shape))
+        return numpy.broadcast_to(W[0], U.shape), W, False
+    if cls == "bigendian":                                # non-native byte order (a field read from a FITS file)
+        return U.astype(">c16"), U.copy(), False
     return U.copy(), U.copy(), False
 
 
@@ -178,7 +223,7 @@ def correspondence(chk, quick, ncase, accept_pinned_two=False, odd=False):
     nprng = numpy.random.default_rng(chk.rng.getrandbits(32))
     sizes = [2, 4, 6, 8, 10, 12] if quick else [2, 4, 6, 8, 10, 12, 14, 16]
     if odd:
-        sizes = sizes + ([3, 5, 7, 9] if quick else [3, 5, 7, 9, 11, 13, 15])
+        sizes = sizes + ([1, 3, 5, 7, 9] if quick else [1, 3, 5, 7, 9, 11, 13, 15])
     lines, expect, desc, tols = [], [], [], []
 
     def add(opname, n, p, U, impl, tol):
@@ -201,7 +246,8 @@ def correspondence(chk, quick, ncase, accept_pinned_two=False, odd=False):
         m = near_unit(chk.rng) if it % 6 == 5 else MAGS[it % len(MAGS)]
         sc = Scalars(chk.rng, it, wvl, d1, m, z)
         (o_w, o_1, o_2, o_z), (wvl, d1, d2, z) = sc.obj, sc.val
-        tol = LOWP_TOL if sc.lowp else C64_TOL if c64 else TOL
+        tol = LOWP_TOL if sc.lowp else TOL
+        tol_lens = LOWP_TOL if sc.lowp else C64_TOL if single("lens", c64) else TOL
         chk.count("corr:N=%d" % n)
         chk.count("corr:z%s" % ("+" if z > 0 else "-"))
         chk.count("corr:m=%s" % ("%g" % m if m in MAGS else "1±2^-k"))
@@ -213,7 +259,7 @@ def correspondence(chk, quick, ncase, accept_pinned_two=False, odd=False):
             add("as", n, (wvl, d1, d2, z), U, op.angularSpectrum(Uin, o_w, o_1, o_2, o_z), tol)
             add("one", n, (wvl, d1, z), U, op.oneStepFresnel(Uin, o_w, o_1, o_z), tol)
             add("two", n, (wvl, d1, d2, z), U, op.twoStepFresnel(Uin, o_w, o_1, o_2, o_z), tol)
-            add("lens", n, (wvl, d1, z), U, op.lensAgainst(Uin, o_w, o_1, o_z), tol)
+            add("lens", n, (wvl, d1, z), U, op.lensAgainst(Uin, o_w, o_1, o_z), tol_lens)
         if it % 7 == 0:
             z0 = as_kind(0.0, SCALAR_KINDS[(it // 7) % 5])[0]
             add("as", n, (wvl, d1, d2, 0.0), U, numpy.asarray(op.angularSpectrum(Uin, o_w, o_1, o_2, z0)), TOL)
@@ -283,8 +329,10 @@ def propagators(op):
     }
 
 
-LOWP_POWER_TOL = 1e-5   # a numpy.float32 scalar or a complex64 field: 1/(i lambda z), d2 resp. the FFT are evaluated in single precision
-#                         (observed <= 4.5e-7 over 400 geometries)
+LOWP_POWER_TOL = 1e-5   # a numpy.float32 scalar (1/(i lambda z), d2 evaluated in single precision) or, for lensAgainst only, a complex64 / float32
+#                         field (numpy.fft transforms it in single precision): observed <= 5.1e-7 over 400 geometries.  Everything else,
+#                         single-precision fields of the other three propagators included, is held to TOL = 1e-9 (observed: power 1.8e-13 incl.
+#                         the parameter-decade and 1e±100-amplitude classes, superposition 6e-16, same-values-other-storage exactly 0)
 TINY_Z = [5e-9, -5e-9, 1e-10, -3e-12]
 
 
@@ -306,8 +354,7 @@ def oracle(chk, quick):
         V = rand_field(nprng, n, "gauss")
         a, b = complex(chk.rng.uniform(-2, 2), chk.rng.uniform(-2, 2)), complex(chk.rng.uniform(-2, 2), chk.rng.uniform(-2, 2))
         pin = float((numpy.abs(U) ** 2).sum() * d1 * d1)
-        ptol = LOWP_POWER_TOL if (sc.lowp or c64) else TOL
-        ltol = LOWP_POWER_TOL if c64 else TOL             # a*U of a complex64 field is rounded to single precision by NumPy
+        ltol = LOWP_POWER_TOL if c64 else TOL             # a*U of a complex64 / float32 field is rounded to single precision by NumPy
         chk.count("%s:N=%d" % (tag, n))
         chk.count("%s:z%s" % (tag, "+" if z > 0 else "-"))
         chk.count("%s:data=%s" % (tag, kind))
@@ -324,8 +371,20 @@ def oracle(chk, quick):
                      sample={"propagator": name, "N": n, "wvl": wvl, "d1": d1, "d2": d2, "z": z, "data": kind, "field": cls,
                              "scalar kinds (wvl,d1,d2,z)": sc.label()} if sample else None)
             rp = dict(propagator=name, N=n, wvl=wvl, d1=d1, d2=d2, z=z, data=kind, field=cls, scalar_kinds=sc.label(), seed=chk.seed)
+            # power: single-precision tolerance only where the unchanged library computes in single precision (a float32 scalar, or
+            # lensAgainst on a complex64 / float32 field); a single-precision FIELD is promoted to double by the other three
+            ptol = LOWP_POWER_TOL if (sc.lowp or single(name, c64)) else TOL
             U0 = Uin.copy()
-            out = call(Uin)
+            try:
+                out = call(Uin)
+            except Exception as ex:                       # no generated input raises on the unchanged tree: a concrete failing input (and go on)
+                chk.fail("exception:%s:%s:%s" % (name, type(ex).__name__, cls), "%s raises %s: %s for a %s field (dtype %s, writeable %s, strides %s) "
+                         "N=%d wvl=%r d1=%r d2=%r z=%r" % (name, type(ex).__name__, str(ex)[:160], cls, Uin.dtype, Uin.flags.writeable, Uin.strides, n,
+                                                          obj[0], obj[1], obj[2], obj[3]), dict(rp, U=_small(U)))
+                continue
+            if isinstance(out, numpy.ndarray) and out.dtype.kind in "biu":
+                out = out.astype(complex)                 # complex on the unchanged tree; an integer / bool array handed back must still be comparable
+            kept = numpy.array(out, copy=True) if isinstance(out, numpy.ndarray) else None
             if out.shape != U.shape:
                 chk.fail("shape:" + name, "%s returns shape %s for input %s" % (name, out.shape, U.shape), rp)
                 continue
@@ -369,6 +428,35 @@ def oracle(chk, quick):
                 chk.fail("stateful:" + name, "%s returns a different field when called twice with the same arguments (N=%d)" % (name, n), rp)
             if not numpy.array_equal(Uin, U0):
                 chk.fail("inplace:" + name, "%s modifies its input field (N=%d)" % (name, n), rp)
+            # the same VALUES in another storage (dtype / byte order / layout) are the same field: compare with the plain complex128,
+            # C-ordered copy (exactly equal on the unchanged tree for every class but single-precision input of lensAgainst: observed 0.0)
+            if cls not in ("c128",):
+                plain = call(U.copy())
+                stol = C64_TOL if single(name, c64) else TOL
+                e = obs(chk, "presentation[tol %g]" % stol, float(numpy.abs(plain - out).max()) / scl)
+                if not e <= stol:
+                    chk.fail("presentation:%s:%s" % (name, cls), "%s returns a different field for the same values stored as %s (dtype %s, C-contiguous %s, "
+                             "writeable %s) and as a plain complex128 array: err %.3g of scale %.3g (N=%d wvl=%g d1=%g d2=%g z=%g)"
+                             % (name, cls, Uin.dtype, Uin.flags.c_contiguous, Uin.flags.writeable, e * scl, scl, n, wvl, d1, d2, z), dict(rp, U=_small(U)))
+            # histories around one call: (1) a result handed out earlier must not change when the function is called again (a shared output /
+            # work buffer); (2) the caller may overwrite the result it was given (apply a mask in place) without affecting the next call;
+            # (3) the caller may refill the SAME input array with another field (a simulation loop does): the result must follow the contents
+            if kept is not None and not numpy.array_equal(out, kept):
+                chk.fail("stateful:%s:result-overwritten" % name, "the array returned by the first %s call changed while the function was called again "
+                         "with other fields (N=%d): results share a buffer" % (name, n), rp)
+            elif kept is not None and out.flags.writeable:
+                out[...] = 0
+                if not numpy.array_equal(call(Uin), kept):
+                    chk.fail("stateful:%s:result-shared-with-caller" % name, "after the caller zeroed the array %s returned, the same call returns a "
+                             "different field (N=%d): the result is shared with internal state" % (name, n), rp)
+            if Uin.flags.writeable and not numpy.array_equal(Uin, U0):
+                Uin[...] = U0                             # (an in-place edit, or a result that aliases the input: already reported above)
+            if Uin.flags.writeable and Uin.dtype.kind == "c" and Uin.dtype.itemsize == 16:
+                Uin[...] = V
+                if not numpy.array_equal(call(Uin), oV):
+                    chk.fail("stateful:%s:input-array-reused" % name, "%s called with the same array OBJECT refilled with another field does not return "
+                             "the propagation of the new contents (N=%d, field class %s)" % (name, n, cls), dict(rp, U=_small(U), V=_small(V)))
+                Uin[...] = U0                             # the next propagator gets the original field again
 
     for n in sizes:
         for rep in range(reps):
@@ -380,7 +468,7 @@ def oracle(chk, quick):
                 z *= chk.rng.uniform(0.5, 2.0)
             # unit magnification (d1 == d2 exactly, however the two numbers are typed) in a fixed third of the cases
             m = 1.0 if rep % 3 == 1 else chk.rng.choice(MAGS + [chk.rng.uniform(0.3, 3.0), near_unit(chk.rng)])
-            kind = chk.rng.choice(["gauss", "dyadic", "delta", "blob"])
+            kind = chk.rng.choice(["gauss", "dyadic", "delta", "blob", "plane"])
             cls = FIELD_CLASSES[it % len(FIELD_CLASSES)]
             one_geometry(n, wvl, d1, m, z, kind, cls, sample=(rep == 0 and n in (8, 64)))
     # unit magnification with every NumPy way of typing d1 / z (the intermediate plane z/(1-m) must not be taken)
@@ -396,7 +484,7 @@ def oracle(chk, quick):
     for n in ([8, 16] if quick else [4, 8, 16, 32]):
         for m in (1.0, 2.0, 0.75):
             wvl, d1, z0 = geometry(chk.rng, n)
-            for fz in (1.0, 2.5, -0.4, 1.0):
+            for fz in (1.0, 2.5, -0.4, -1.0, 1.0):        # -1: the same |z| with the other sign
                 it += 1
                 one_geometry(n, wvl, d1, m, z0 * fz, chk.rng.choice(["gauss", "blob"]), "c128", kinds=["float"] * 4, tag="same-sampling")
     # tiny non-zero distances of either sign, with magnification: z != 0 is in the domain however small (a zero-distance shortcut that
@@ -407,6 +495,83 @@ def oracle(chk, quick):
             n = chk.rng.choice([4, 6, 8, 16])
             wvl, d1, _ = geometry(chk.rng, n)
             one_geometry(n, wvl, d1, m, z, chk.rng.choice(["gauss", "dyadic", "blob"]), "c128", tag="tiny-z")
+
+    # ---- round 5 (generator audit) ------------------------------------------------------------------------------------------------------
+    # one parameter changed at a time, the others (and N) kept, returning to the first geometry in between: whatever a propagator remembers
+    # per call must be keyed on ALL of (N, wvl, d1, d2, z)
+    for n in ([6, 16] if quick else [4, 6, 16, 32]):
+        wvl, d1, z = geometry(chk.rng, n)
+        m = chk.rng.choice([0.5, 1.5, 2.0])
+        base = (n, wvl, d1, m, z)
+        for var in (base, (n, 2 * wvl, d1, m, z), base, (n, wvl, 2 * d1, m / 2, z), base, (n, wvl, d1, 1.0, z), base, (n, wvl, 2 * d1, m, z),
+                    base, (n + 2, wvl, d1, m, z), base):
+            it += 1
+            one_geometry(*var, kind=chk.rng.choice(["gauss", "blob"]), cls="c128", kinds=["float"] * 4, tag="one-changed")
+    # parameter magnitudes over many decades (X-ray to radio wavelengths, sub-micron to kilometre samples, micrometres to 1e12 m) and
+    # magnifications far from / next to 1 (1e-3, 1e3, 1 ± 2^-20, 1 ± 2^-30, one ulp): every factor is still of unit modulus or an exact
+    # scalar, so power and linearity hold to rounding (observed over the full 4·5·5·8·7 product of these menus: power 1.8e-13, linearity 5e-16)
+    for rep in range(8 if quick else 60):
+        it += 1
+        n = chk.rng.choice([4, 8, 16, 34])
+        wvl = chk.rng.choice([1e-10, 500e-9, 1e-3, 1.0, 30.0])
+        d1 = chk.rng.choice([1e-7, 1e-3, 0.1, 10.0, 1e3])
+        z = chk.rng.choice([-1, 1]) * chk.rng.choice([1e-6, 1e-3, 1.0, 1e5, 1e8, 1e12])
+        m = [1e-3, 1e3, 1 + 2.0 ** -20, 1 - 2.0 ** -30, 1 + 2.0 ** -52, 1.0, 1 - 2.0 ** -20, 7.0][rep % 8]
+        one_geometry(n, wvl, d1, m, z, chk.rng.choice(["gauss", "dyadic", "blob", "plane"]), "c128",
+                     kinds=[chk.rng.choice(["float", "f64", "0d"]) for _ in range(4)], tag="magnitude")
+    # amplitudes far from 1, and the zero field (a linear map sends 0 to 0 exactly)
+    for kind in ("huge", "tiny"):
+        for rep in range(1 if quick else 4):
+            it += 1
+            n = chk.rng.choice([4, 8, 26])
+            wvl, d1, z = geometry(chk.rng, n)
+            one_geometry(n, wvl, d1, chk.rng.choice([1.0, 0.5, 1.5]), z, kind, "c128", kinds=["float"] * 4, tag="amplitude")
+    for n in ([6] if quick else [2, 6, 34]):
+        wvl, d1, z = geometry(chk.rng, n)
+        for m in (1.0, 1.5):
+            for name, (call0, _) in props.items():
+                chk.oracle_cases += 1
+                chk.case(("zero-field", name, n, wvl, d1, m, z))
+                chk.count("zero-field")
+                with numpy.errstate(all="ignore"):
+                    out = call0(numpy.zeros((n, n), complex), wvl, d1, m * d1, z)
+                if out.shape != (n, n) or not (out == 0).all():
+                    chk.fail("linear:" + name, "%s of the zero field is not the zero field (N=%d wvl=%g d1=%g d2=%g z=%g): max |out| = %r"
+                             % (name, n, wvl, d1, m * d1, z, float(numpy.abs(out).max()) if out.size else None),
+                             dict(propagator=name, N=n, wvl=wvl, d1=d1, d2=m * d1, z=z, data="zero"))
+    # integer-typed parameters with a magnification != 1: Python int, numpy.int64, numpy.int32, numpy.uint8 (z stays signed)
+    # — the ratio d2/d1 is never an integer (2:1, 2:3, 2:5, 4:2, 4:3, 4:5, 4:6: all dyadic, so d2 = m·d1 is exact)
+    for kinds in (["int"] * 4, ["i64"] * 4, ["i32"] * 4, ["u8", "u8", "u8", "i64"], ["int", "i32", "float", "i64"]):
+        it += 1
+        d1i, d2i = chk.rng.choice([(2, 1), (2, 3), (2, 5), (4, 2), (4, 3), (4, 5), (4, 6)])
+        one_geometry(chk.rng.choice([4, 6, 8]), float(chk.rng.choice([1, 2])), float(d1i), d2i / float(d1i),
+                     float(chk.rng.choice([-1, 1]) * chk.rng.randint(2, 40)), chk.rng.choice(["gauss", "dyadic"]), "c128", kinds=kinds, tag="int-scalars")
+    # grids large enough to cross the usual size thresholds (2^16 = 256², 2^18 = 512² elements; the test-suite's own size is 512)
+    for n in ([256, 512] if quick else [256, 260, 384, 512, 1024]):
+        it += 1
+        wvl, d1 = chk.rng.choice([500e-9, 1.55e-6]), chk.rng.choice([1e-3, 2.5e-3])
+        z = chk.rng.choice([-1, 1]) * n * d1 * d1 / wvl * chk.rng.choice([0.5, 1.0, 2.0])
+        one_geometry(n, wvl, d1, chk.rng.choice([1.0, 0.75, 1.5]) if n != 512 else 1.5, z, chk.rng.choice(["gauss", "blob"]),
+                     "c128" if n != 256 else "c64", kinds=["float"] * 4, tag="large")
+    # every parameter passed by keyword (the documented names)
+    kw = {"angularSpectrum": ("inputComplexAmp", "wvl", "inputSpacing", "outputSpacing", "z"), "oneStepFresnel": ("Uin", "wvl", "d1", "z"),
+          "twoStepFresnel": ("Uin", "wvl", "d1", "d2", "z"), "lensAgainst": ("Uin", "wvl", "d1", "f")}
+    n = 8
+    wvl, d1, z = geometry(chk.rng, n)
+    U = rand_field(nprng, n, "gauss")
+    for name, names in kw.items():
+        args = (U, wvl, d1, 1.5 * d1, z) if len(names) == 5 else (U, wvl, d1, z)
+        chk.oracle_cases += 1
+        chk.case(("keyword", name, n, wvl, d1, z))
+        chk.count("keyword-call")
+        try:
+            byname = getattr(op, name)(**dict(zip(names, args)))
+        except TypeError as ex:
+            chk.fail("keyword:" + name, "%s cannot be called with its documented parameter names %s: %s" % (name, list(names), ex),
+                     dict(propagator=name, names=list(names)))
+            continue
+        if not numpy.array_equal(byname, getattr(op, name)(*args)):
+            chk.fail("keyword:" + name, "%s called by keyword differs from the positional call (N=%d)" % (name, n), dict(propagator=name, N=n, wvl=wvl, d1=d1, z=z))
 
 
 def _small(U):
@@ -422,8 +587,14 @@ def run(chk):
                 "1e-9*max|model| (5e-2 when a scalar is float32, 1e-5 for a complex64 field); oracle: finite output, power ratio |r-1|<=1e-9 "
                 "(1e-5 single precision), superposition with complex a,b, homogeneity for i and a general complex factor (both signs of z), "
                 "repeatability, input untouched, on N<=64 (thorough <=128) with m=1 forced in one third of the geometries, every NumPy typing of "
-                "d1/z at m=1, and tiny distances |z| in {5e-9, 1e-10, 3e-12} with m in {2, 1/2}; distinct = distinct (propagator, N, wvl, d1, d2, z, "
-                "data kind, field class, scalar kinds)")
+                "d1/z at m=1, and tiny distances |z| in {5e-9, 1e-10, 3e-12} with m in {2, 1/2}; round 5: fields also stored as float32 / int64 / int32 / "
+                "uint8 / bool / read-only / zero-stride broadcast / big-endian arrays (the double-precision bounds apply to a single-precision FIELD for "
+                "every propagator but lensAgainst; same values in another storage = same output), plane waves, amplitudes 1e±100, the zero field, "
+                "integer-typed scalars (int, numpy.int64/int32/uint8) with m != 1, wvl 1e-10..30, d1 1e-7..1e3, |z| 1e-6..1e12, m in {1e-3, 1e3, 7, "
+                "1±2^-20, 1-2^-30, 1+2^-52}, N = 256, 512 (thorough 260, 384, 1024), histories on one grid with one of wvl / d1 / d2 / both spacings / N "
+                "changed at a time and back, the same |z| with the other sign, an earlier result re-read after later calls, the returned array zeroed by "
+                "the caller, the caller's input array refilled with another field, every parameter by keyword; distinct = distinct (propagator, N, wvl, "
+                "d1, d2, z, data kind, field class, scalar kinds)")
     chk.assumptions = ["numpy.fft kernels = naive DFT sums (contract checked numerically each run)",
                        "binary64 rounding is not modelled: the theorems are about exact complex arithmetic",
                        "single-precision inputs (numpy.float32 scalars, complex64 fields) are only compared to single-precision accuracy",
